@@ -50,6 +50,7 @@ import (
 	"io"
 	"iter"
 	"regexp/syntax"
+	"sort"
 	"strconv"
 	"strings"
 	"unicode"
@@ -1745,16 +1746,8 @@ func (r *Regex) MatchReader(reader io.RuneReader) bool {
 // byte offset loc[0] through loc[1]-1.
 // A return value of nil indicates no match.
 func (r *Regex) FindReaderIndex(reader io.RuneReader) []int {
-	// Read all runes into a string and find
-	var runes []rune
-	for {
-		rn, _, err := reader.ReadRune()
-		if err != nil {
-			break
-		}
-		runes = append(runes, rn)
-	}
-	return r.FindStringIndex(string(runes))
+	text, offsets := readAllRunes(reader)
+	return offsets.toStream(r.FindStringIndex(text))
 }
 
 // FindReaderSubmatchIndex returns a slice holding the index pairs
@@ -1764,16 +1757,64 @@ func (r *Regex) FindReaderIndex(reader io.RuneReader) []int {
 // package comment.
 // A return value of nil indicates no match.
 func (r *Regex) FindReaderSubmatchIndex(reader io.RuneReader) []int {
-	// Read all runes into a string and find
+	text, offsets := readAllRunes(reader)
+	return offsets.toStream(r.FindStringSubmatchIndex(text))
+}
+
+// runeOffsets maps byte offsets of the text re-encoded from a RuneReader back to
+// byte offsets of the stream. The two differ when ReadRune reports a size other than
+// the UTF-8 length of the rune it returns: an invalid byte is read as U+FFFD with
+// size 1 but takes 3 bytes in the re-encoded text. nil means the offsets coincide.
+type runeOffsets struct {
+	text   []int // offset of every rune in the re-encoded text, then its length
+	stream []int // offset of the same rune in the stream, then the stream length
+}
+
+// readAllRunes reads the reader to the end and returns the runes as a string.
+func readAllRunes(reader io.RuneReader) (string, *runeOffsets) {
 	var runes []rune
+	offs := &runeOffsets{}
+	textPos, streamPos, differ := 0, 0, false
 	for {
-		rn, _, err := reader.ReadRune()
+		rn, size, err := reader.ReadRune()
 		if err != nil {
 			break
 		}
 		runes = append(runes, rn)
+		offs.text = append(offs.text, textPos)
+		offs.stream = append(offs.stream, streamPos)
+		n := utf8.RuneLen(rn)
+		if n < 0 {
+			n = utf8.RuneLen(utf8.RuneError) // string(rune) encodes it as U+FFFD
+		}
+		if n != size {
+			differ = true
+		}
+		textPos += n
+		streamPos += size
 	}
-	return r.FindStringSubmatchIndex(string(runes))
+	if !differ {
+		return string(runes), nil
+	}
+	offs.text = append(offs.text, textPos)
+	offs.stream = append(offs.stream, streamPos)
+	return string(runes), offs
+}
+
+// toStream rewrites the index pairs of loc (negative entries are kept) in place.
+func (o *runeOffsets) toStream(loc []int) []int {
+	if o == nil {
+		return loc
+	}
+	for i, idx := range loc {
+		if idx < 0 {
+			continue
+		}
+		// last rune boundary at or before idx
+		k := sort.SearchInts(o.text, idx+1) - 1
+		loc[i] = o.stream[k] + (idx - o.text[k])
+	}
+	return loc
 }
 
 // MatchReader reports whether the text returned by the RuneReader
